@@ -1,0 +1,1 @@
+//! Verification facade (cfg-gated): sync family.  See `crate::verif`.
